@@ -16,6 +16,9 @@ ASSUMPTIONS = [
     "(a body that returns has written all its products) are hypotheses; the project is static along a History (edits = arbitrary changes of "
     "file contents incl. module files and products, loss of the state table); add/remove/rewire-task edits are covered by the differential "
     "campaign only",
+    "generated projects also contain: input nodes that are symbolic links edited through their target (model: state = content the spelling denotes), "
+    "a DirectoryNode product declared before / after the ordinary file products of some tasks (its files are implementation-only and never edited; "
+    "model replay and oracle cover the ordinary products), a constant hashed PythonNode dependency; successive builds of one history run under different PYTHONHASHSEEDs",
 ]
 EDITS = ["write", "write", "revert", "rewrite_same", "touch", "delete_input", "bump", "revert_module", "tamper", "delete_product",
          "rewire", "add_task", "remove_task"]
